@@ -1140,6 +1140,40 @@ pub fn judge(case: &ConcCase, r: &ConcResult) -> Verdicts {
             }
         }
     }
+    // C11: "a writer waiting for tree-bin readers to drain is always woken". The argument
+    // (`Proto/RwLock`: `writer_eventually_enabled`) is that once the WAITER bit is set no further
+    // reader enters the tree, so the reader count only falls. A reader that takes the read lock
+    // although the lock word it loaded had WAITER (or WRITER) set overtakes the parked writer; reads
+    // that keep arriving then keep it parked for ever, with the bin mutex held. A release of the
+    // read lock (`fetch_add(-READER)`) whose acquisition was decided on such a word is that reader.
+    {
+        let mut last_decision: std::collections::HashMap<(usize, usize), usize> = Default::default(); // (tid, lock word) -> word loaded
+        let mut overtakes: Vec<(usize, usize, &'static str, u32)> = vec![];
+        for e in &r.trace {
+            if e.what != "lock_state" {
+                continue;
+            }
+            match e.kind {
+                Kind::Yield => {
+                    last_decision.insert((e.tid, e.addr), e.a);
+                }
+                Kind::FetchAdd if (e.a as isize) == -4 => {
+                    if let Some(sv) = last_decision.remove(&(e.tid, e.addr)) {
+                        if sv & 3 != 0 {
+                            overtakes.push((e.tid, sv, e.file, e.line));
+                        }
+                    }
+                }
+                _ => {}
+            }
+        }
+        if let Some((t, sv, file, line)) = overtakes.first() {
+            f.push(format!(
+                "[starvation] t{} took a tree bin's read lock although the lock word it had loaded was {} (WAITER = 2 / WRITER = 1 set): {} read(s) of this run entered the tree past a writer that was already waiting; while reads keep arriving the reader count never reaches zero and the parked writer - which holds the bin mutex - is never woken (release at {}:{})",
+                t, sv, overtakes.len(), file, line
+            ));
+        }
+    }
     // C14: "removing entries - by any operation - never makes it grow": a call that only removes
     // must not be the one that initiates a resize (the CAS that takes `size_ctl` from a threshold
     // to a negative resize stamp)
@@ -1339,6 +1373,29 @@ pub fn abs_points(case: &ConcCase, r: &ConcResult) -> (Vec<String>, usize, usize
                     states.iter().map(|s| fmt(*s)).collect::<Vec<_>>().join(", ")
                 ));
             }
+        }
+    }
+    // C05 (`len()` equals the number of entries whenever nothing is in flight): every call adds to
+    // the entry counter exactly the number of entries it added to / removed from the content
+    // (`Proto/Count`: `quiescent_count_eq_size`). Judged per completed call: the sum of the deltas
+    // it passed to `add_count` against the net effect of its witnessed changes.
+    for c in &r.calls {
+        let net: i64 = r
+            .abs_changes
+            .iter()
+            .filter(|ch| ch.tid == c.tid && c.trace_from <= ch.ix && ch.ix < c.trace_to)
+            .map(|ch| ch.after.is_some() as i64 - ch.before.is_some() as i64)
+            .sum();
+        let counted: i64 = r.trace[c.trace_from.min(r.trace.len())..c.trace_to.min(r.trace.len())]
+            .iter()
+            .filter(|e| e.tid == c.tid && e.kind == Kind::FetchAdd && e.what == "count")
+            .map(|e| e.a as isize as i64)
+            .sum();
+        if net != counted {
+            f.push(format!(
+                "[count] t{} `{}` [{}..{}] -> {}: the call changed the number of entries by {} but added {} to the entry counter (len() no longer equals the number of entries once everything has returned)",
+                c.tid, c.op.text(), c.inv, c.resp, c.result, net, counted
+            ));
         }
     }
     f.truncate(6);
@@ -1646,6 +1703,40 @@ pub fn gen_conc_mode(id: usize, seed: u64, tier_big: bool, mode: &str) -> ConcCa
                 programs.push(p);
             }
             (programs, if tree { 64 } else { 0 }, prefill, hashes, "cip")
+        }
+        "retain" if rng.chance(1, 3) => {
+            // retain while the table is resized: 11 entries in a 16-bin table (the 12th insert starts
+            // the resize), one thread adds keys, one replaces the values retain is looking at; the
+            // removals of retain then often go through forwarded bins
+            let hc = *rng.pick(&["ident", "uniform", "alternate"]);
+            let hashes = crate::gen::gen_hashes(&mut rng, hc, 40);
+            let pre = 11usize;
+            let prefill: Vec<(u32, u64, u32)> = (0..pre).map(|i| ((i + 1) as u32, rng.below(5), fresh())).collect();
+            let preds: &[&'static str] = &["none", "none", "even", "veven", "k3"];
+            let mut programs = vec![vec![COp::Retain(*rng.pick(preds), rng.chance(1, 4))]];
+            let mut grow = vec![];
+            for i in 0..(2 + rng.below(3) as u32) {
+                grow.push(COp::Ins(12 + i, rng.below(5), fresh()));
+            }
+            programs.push(grow);
+            // the replacers go over the keys in the order retain meets them (ascending and
+            // descending bins), so that replacements land right behind the predicate
+            for down in [false, true] {
+                let mut repl = vec![];
+                let mut ks: Vec<u32> = (1..=pre as u32).collect();
+                if down {
+                    ks.reverse();
+                }
+                for k in ks {
+                    if rng.chance(2, 3) {
+                        repl.push(if rng.chance(3, 4) { COp::Ins(k, rng.below(5), fresh()) } else { COp::CipInc(k, fresh()) });
+                    }
+                }
+                if !repl.is_empty() {
+                    programs.push(repl);
+                }
+            }
+            (programs, 0, prefill, hashes, "retain")
         }
         "retain" => {
             let hc = *rng.pick(&["zero", "ident", "fewbins", "uniform"]);
